@@ -48,7 +48,7 @@ def run(ctx):
     if not ctx.translate():
         return
     ok = ctx.prove(MODULES)
-    n = 60 if ctx.thorough() else 8
+    n = 200 if ctx.thorough() else 8
     res = fw.corr(ctx, SUITE, n)
     report(ctx, res)
     if res is not None:
